@@ -43,6 +43,10 @@ FIXES = [
     ('15-C11-combine1fiber-without-ivar.patch', 'C11', 'C11.NONE-DEREF'),
     ('16-C01-zero-row-table-with-array-column.patch', 'C01', 'C01.ZERO-ROW'),
     ('17-C07-set_maskbits-fold-keys.patch', 'C07', 'C07.CASEFOLD-STORE'),
+    ('18-C12-set_use_caps-two-sided-complement-test.patch', 'C12', 'C12.DUP-SYM'),
+    ('19-C10-iterfit-early-returns-mask.patch', 'C10', 'C10.MASK-EXITS'),
+    ('20-C18-munu-arcsin-clamped.patch', 'C18', 'C18.ASIN-CLIP'),
+    ('21-C19-refraction-zero-d-input.patch', 'C19', 'C19.SCALAR'),
 ]
 
 
